@@ -140,7 +140,7 @@ Fixpoint branch_lines (n : nat) (nodes : bytes) : list str :=
   end.
 Definition tce_description (t : tce) : list str :=
   branch_lines (Z.to_nat (t_path_len t)) (skipn 33 (t_control t))
-  ++ [TXT_TWEAK ++ uint256_str (firstn 32 (skipn 1 (t_control t)))].
+  ++ [TXT_TWEAK ++ hexstr (firstn 32 (skipn 1 (t_control t)))].      (* XOnlyPubKey::ToString: the key bytes as they are *)
 
 (* script_lines as built by main() *)
 Fixpoint number_from (i : Z) (texts : list (bool * str)) : list str :=
